@@ -356,8 +356,8 @@ def apply_contract(ex: Exec, ct: Contract, fv: FuncV, env):
         elif ex.p.branch(t, f"contract-raise[{exc}]"):
             raise PyRaise(ExcV(exc))
     fr = Frame(ex, fv, cenv)
-    for target, expr in ct.updates.items():
-        val = eval_clause(ex, expr, cenv, mi)
+    newvals = [(target, eval_clause(ex, expr, cenv, mi)) for target, expr in ct.updates.items()]  # simultaneous: all over the pre-state
+    for target, val in newvals:
         set_path(ex, fr, target, val)
     ex.events.append(("call", ct.func))
     if ct.returns is not None:
@@ -422,7 +422,12 @@ def verify_scenario(world: World, ct: Contract, sc: Scenario, budget_ms=400, max
                 ex.measure_entry = eval_clause(ex, ct.decreases, cenv, fv.mi)
             raised = None
             try:
-                fenv = ex.bind_args(fv, [], {k: v for k, v in env.items() if not k.startswith("ghost_")})  # fills defaults
+                a = fv.node.args
+                special = {n.arg for n in (a.kwarg, a.vararg) if n is not None}
+                fenv = ex.bind_args(fv, [], {k: v for k, v in env.items() if not k.startswith("ghost_") and k not in special})  # fills defaults
+                for k in special:
+                    if k in env:
+                        fenv[k] = env[k]
                 fenv.update(ghost)
                 fenv.update({k: v for k, v in cenv.items() if k.startswith("old_")})  # entry snapshots for loop invariants
                 for k, v in fenv.items():
@@ -438,6 +443,8 @@ def verify_scenario(world: World, ct: Contract, sc: Scenario, budget_ms=400, max
                 r.outcome = "return"
                 cenv["result"] = result
                 for exc, cond in ct.raises:
+                    if cond is None:
+                        continue  # merely an allowed outcome
                     path.check(f"{ct.func}/no-raise[{exc}]", z3.Not(clause_truth(ex, cond, renv, fv.mi)),
                                {"kind": "raises-complete", "text": f"normal return implies not ({cond})", "exc": exc})
                 if ct.returns is not None:
@@ -446,7 +453,7 @@ def verify_scenario(world: World, ct: Contract, sc: Scenario, budget_ms=400, max
                                {"kind": "ensures", "text": f"result == {ct.returns}"})
                 for target, expr in ct.updates.items():
                     cur = eval_clause(ex, target, cenv, fv.mi)
-                    want = eval_clause(ex, expr, cenv, fv.mi)
+                    want = eval_clause(ex, expr, renv, fv.mi)  # update expressions speak about the entry state
                     path.check(f"{ct.func}/update[{target}]", zbool(unwrap_bool(value_equal(ex, cur, want))),
                                {"kind": "ensures", "text": f"{target} == {expr}"})
                 for cid, expr, props in ct.ensures:
@@ -461,9 +468,9 @@ def verify_scenario(world: World, ct: Contract, sc: Scenario, budget_ms=400, max
                     path.check(f"{ct.func}/unexpected-exception[{pr.exc.cls}]", z3.BoolVal(False),
                                {"kind": "raises", "text": f"{pr.exc.cls} is not an allowed outcome"})
                 else:
-                    goal = z3.Or(*[clause_truth(ex, c, renv, fv.mi) for c in conds])
+                    goal = z3.BoolVal(True) if any(c is None for c in conds) else z3.Or(*[clause_truth(ex, c, renv, fv.mi) for c in conds])
                     path.check(f"{ct.func}/raises[{pr.exc.cls}]", goal,
-                               {"kind": "raises", "text": f"raise {pr.exc.cls} implies ({' or '.join(conds)})"})
+                               {"kind": "raises", "text": f"raise {pr.exc.cls} implies ({' or '.join(str(c) for c in conds)})"})
                 for cid, expr, props in ct.exc_ensures:
                     path.check(f"{ct.func}/exc-ensures[{cid}]", clause_truth(ex, expr, cenv, fv.mi),
                                {"kind": "exc-ensures", "text": expr, "props": props})
